@@ -81,4 +81,11 @@ MUTANTS = [
     ("dc_roots_guess_at_interval_start", DC, "expr_integrator_root = ca.hcat([self.eval_at_integrator_root(stage, expr, k, i, j) for k in list(range(self.N)) for i in range(self.M) for j in range(self.degree) ])", "expr_integrator_root = ca.hcat([self.eval_at_integrator_root(stage, expr, k, i, 0) for k in list(range(self.N)) for i in range(self.M) for j in range(self.degree) ])", ["C10"]),
     ("time_guess_uses_default_T", SM, "            T_init = opti.debug.value(self.T, opti.initial())", "            T_init = opti.debug.value(self.T, opti.initial()) if self.N!=2 else 1.0", ["C10"]),
     ("global_var_guess_doubled", "rockit/direct_method.py", "            opti.set_initial(target, value, cache_advanced=True)", "            opti.set_initial(target, 2*value, cache_advanced=True)", []),
+    # --- C13
+    ("subject_to_no_invalidate", ST, "        self._set_transcribed(False)\n        #import ipdb; ipdb.set_trace()", "        #import ipdb; ipdb.set_trace()", ["C13"]),
+    ("add_objective_no_invalidate", ST, "        self._set_transcribed(False)\n        self._objective = self._objective + term", "        self._objective = self._objective + term", ["C13"]),
+    ("clear_constraints_no_invalidate", ST, "        self._set_transcribed(False)\n        self._constraints = defaultdict(list)", "        self._constraints = defaultdict(list)", ["C13"]),
+    ("method_change_keeps_old_solver_options", "rockit/direct_method.py", "        if template and template._solver_options is not None:\n            self._solver_options = template._solver_options", "        if template and template._solver_options is not None:\n            self._solver_options = dict(template._solver_options, **{'ipopt.max_iter': 1}) if 'ipopt.max_iter' in template._solver_options else template._solver_options", ["C13"]),
+    ("set_initial_after_transcription_not_stored", ST, "            self._initial[var] = value\n            if priority:", "            if not (self.master is not None and self.master.is_transcribed): self._initial[var] = value\n            if priority and var in self._initial:", ["C13"]),
+    ("transcription_adds_constraint_to_user_ocp", "rockit/ocp.py", "                augmented = copy.deepcopy(self)\n", "                augmented = copy.deepcopy(self)\n                if len(self.states)>1: self._constraints['point'] = list(self._constraints['point'])+list(self._constraints['point'][:1])\n", ["C13"]),
 ]
